@@ -7,6 +7,8 @@ FamA == Family({<<2, 1>>, <<1, 1, 1>>}, MSeqs(2), {0, 1, 2})
 FamB == Family({<<2, 1>>, <<1, 1>>}, MSeqs(2), {0, 1, 2})
 FamC == Family({<<2, 1>>}, SingleMSeqs(2), {0, 1, 2}) \cup Family({<<1, 1>>}, MSeqs(2), {1, 2})
 FamM3 == Family({<<2, 1>>, <<1, 1, 1>>}, MSeqs(3), {0, 1, 3})
+FamNF == Family({<<2, 1>>, <<1, 1, 1>>, <<2, 2>>, <<3>>, <<1>>, <<1, 1>>}, SingleMSeqs(2), {0, 1, 2})
+         \cup Family({<<2, 1>>, <<1, 1, 1>>}, SingleMSeqs(3), {0, 1, 3})
 FiltA == FiltNone \cup FiltSingles \cup FiltDefault
 FiltB == FiltNone \cup FiltDefault
 FiltAll2 == FiltNone \cup FiltSingles \cup FiltPairs
